@@ -217,6 +217,38 @@ Proof.
     rewrite !nth_firstn_lt by lia. reflexivity.
 Qed.
 
+(* the documented count: k numbers for an even k, k + 1 for an odd k *)
+Lemma width_doc k : width k = if Nat.even k then k else k + 1.
+Proof.
+  unfold width. destruct (Nat.even k) eqn:E.
+  - apply Nat.even_spec in E. destruct E as [m ->]. lia.
+  - rewrite <- Nat.negb_odd in E. apply negb_false_iff in E. apply Nat.odd_spec in E.
+    destruct E as [m ->]. lia.
+Qed.
+
+(* present exactly when the documented number of source values is available, absent exactly when
+   it is not (both directions, no other outcome) *)
+Theorem draw_doc_counts g src k :
+  let needed := if Nat.even k then k else k + 1 in
+  ((exists l, fst (draw ops g src (N.of_nat k)) = Some l) <-> needed <= length src) /\
+  (fst (draw ops g src (N.of_nat k)) = None <-> length src < needed) /\
+  (needed <= length src -> length (snd (draw ops g src (N.of_nat k))) = length src - needed) /\
+  (length src < needed -> snd (draw ops g src (N.of_nat k)) = []).
+Proof.
+  cbv zeta. rewrite <- width_doc, draw_spec.
+  destruct (Nat.leb_spec (width k) (length src)) as [Hle|Hgt]; cbn [fst snd].
+  - split; [split; [intros _; exact Hle | intros _; eauto]|].
+    split; [split; [discriminate | lia]|]. split; [intros _; apply skipn_length | lia].
+  - split; [split; [intros [l Hl]; discriminate | lia]|].
+    split; [split; [intros _; exact Hgt | reflexivity]|]. split; [lia | reflexivity].
+Qed.
+
+Lemma nth_skipn_add {A} n : forall (l : list A) i d, nth i (skipn n l) d = nth (n + i) l d.
+Proof.
+  induction n as [|n IH]; intros l i d; [reflexivity|].
+  destruct l as [|x l]; [now destruct i|]. apply IH.
+Qed.
+
 End Draws.
 
 (* ================================================================== multivariate draws *)
@@ -380,4 +412,70 @@ Proof.
     apply Nat.eqb_eq in H2. now rewrite H2.
 Qed.
 
+(* the standard normals of sample row r, in terms of the source: entries 2i / 2i+1 are the
+   Box-Muller images (mean 0, variance 1) of the numbers at positions r*w + 2i, r*w + 2i + 1,
+   w = 2 * ceil(n / 2): every row starts a fresh pair *)
+Theorem std_row_values n src r d : (r + 1) * width n <= length src ->
+  length (std_row n src r) = n /\
+  forall i,
+  (2 * i < n -> nth (2 * i) (std_row n src r) d =
+     fst (box_muller ops (standard_normal ops) (nth (r * width n + 2 * i) src d)
+                                                (nth (r * width n + 2 * i + 1) src d))) /\
+  (2 * i + 1 < n -> nth (2 * i + 1) (std_row n src r) d =
+     snd (box_muller ops (standard_normal ops) (nth (r * width n + 2 * i) src d)
+                                                (nth (r * width n + 2 * i + 1) src d))).
+Proof.
+  intros Hlen. set (w := width n) in *. set (src' := skipn (r * w) src).
+  assert (Hw : w <= length src') by (unfold src'; rewrite skipn_length; lia).
+  assert (E : draw ops (standard_normal ops) src' (N.of_nat n) = (Some (std_row n src r), skipn w src')).
+  { rewrite draw_spec. fold w. destruct (Nat.leb_spec w (length src')); [reflexivity | lia]. }
+  split; [exact (draw_len ops _ _ _ _ _ E)|].
+  intros i. destruct (draw_values ops _ _ _ _ _ d E i) as [H1 H2].
+  unfold src' in H1, H2. rewrite !nth_skipn_add in H1, H2.
+  replace (r * w + (2 * i + 1)) with (r * w + 2 * i + 1) in H1, H2 by lia. auto.
+Qed.
+
 End Multivariate.
+
+(* ================================================================== mean + L z, entry by entry *)
+Section AffineEntry.
+Context {R : Type} (ops : numops R).
+Hypothesis Fth : is_field ops.
+Let Fth' : field_theory (nzero ops) (none_ ops) (nadd ops) (nmul ops) (nsub ops) (nneg ops)
+             (ndiv ops) (ninv ops) (@eq R) := Fth.
+Add Field Ffield17a : Fth'.
+
+(* the textbook inner product  sum_j x_j y_j *)
+Definition inner (xs ys : list R) : R :=
+  sumR ops (map (fun xy => nmul ops (fst xy) (snd xy)) (combine xs ys)).
+
+Lemma scalar_product_inner xs ys : scalar_product ops xs ys = inner xs ys.
+Proof.
+  unfold scalar_product, inner.
+  destruct (map (fun xy => nmul ops (fst xy) (snd xy)) (combine xs ys)) as [|p ps]; [reflexivity|].
+  rewrite (fold_left_add ops Fth). cbn [sumR fold_right]. reflexivity.
+Qed.
+
+Lemma nth_map_combine {A B C} (f : A * B -> C) : forall (xs : list A) (ys : list B) i dx dy dc,
+  i < length xs -> i < length ys ->
+  nth i (map f (combine xs ys)) dc = f (nth i xs dx, nth i ys dy).
+Proof.
+  induction xs as [|x xs IH]; intros ys i dx dy dc Hx Hy; [simpl in Hx; lia|].
+  destruct ys as [|y ys]; [simpl in Hy; lia|]. destruct i as [|i]; [reflexivity|].
+  cbn [combine map nth]. apply IH; simpl in *; lia.
+Qed.
+
+(* entry i of mean + L z is mean_i + sum_j L_ij z_j *)
+Theorem affine_entry (mean : list R) (L : list (list R)) (z : list R) i :
+  i < length mean -> i < length L ->
+  nth i (affine ops mean L z) (nzero ops) =
+  nadd ops (nth i mean (nzero ops)) (inner (nth i L []) z).
+Proof.
+  intros Hm HL. unfold affine, vec_add, mat_vec.
+  rewrite (nth_map_combine _ mean _ i (nzero ops) (nzero ops)) by (rewrite ?map_length; assumption).
+  cbn [fst snd]. f_equal.
+  rewrite (nth_indep _ (nzero ops) (scalar_product ops [] z)) by now rewrite map_length.
+  rewrite (map_nth (fun row => scalar_product ops row z)). apply scalar_product_inner.
+Qed.
+
+End AffineEntry.
